@@ -429,6 +429,8 @@ RULES.update({
     'C14': 'same streams with unknown records of all wire types (incl. nested groups) injected at every nesting level; unknown set per level from the spec decoder (ground truth of what was injected where) vs struct unknownFields vs GetUnknown; re-encoding; DiscardUnknown on and off; SetUnknown/GetUnknown round trip; non-trivial = stream leaves unknown bytes at >=1 level (or, with DiscardUnknown, is non-empty)',
 })
 
+RULES['C06'] = 'hostile inputs per type in 8 classes (random bytes, byte-mutated valid encodings, truncations, adversarial length varints incl. wrap-around values, partial map entries / nested cuts, random records with arbitrary wire types, over-long varints, group tags) x 4 entry points (Unmarshal, Merge+DiscardUnknown, AllowPartial, direct ProtoMethods().Unmarshal with zero Depth), plus nesting chains of depth 100..1000000 along every recursive field cycle; non-trivial = non-empty input; distinct by type+input bytes'
+
 ASSUME = [
     'google.golang.org/protobuf v1.34.0 dynamicpb + proto (reflection codec) is the reference; it and the harness spec codec must agree before a case is decided',
     'the plain-Go-reflection struct reader (struct tags -> field numbers) reads generated structs correctly',
@@ -453,6 +455,113 @@ def check_engine(prop, tier, seed, repo, keep):
         return finish(prop, tier, seed, t0, merged, RULES[prop], ASSUME, floors[0], floors[1], extra=gen_extra)
 
 
+def read_progress(fn):
+    import struct
+    try:
+        b = open(fn, 'rb').read(24)
+        return struct.unpack('<qqq', b)
+    except Exception:
+        return None
+
+
+def run_isolated(w, binary, engine, shard, shards, args, timeout, tag):
+    """One child under a watchdog with a progress file. Returns (report|None, crashinfo|None)."""
+    o = w.p('zzout', '%s-%s-%d.json' % (engine, tag, shard))
+    lg = w.p('zzout', '%s-%s-%d.log' % (engine, tag, shard))
+    pg = w.p('zzout', '%s-%s-%d.progress' % (engine, tag, shard))
+    for f in (o, pg):
+        if os.path.exists(f):
+            os.remove(f)
+    e = dict(GOENV)
+    e['GOMAXPROCS'] = '2'
+    e['GOTRACEBACK'] = 'single'
+    cmd = ['timeout', '-s', 'QUIT', '-k', '20', str(timeout), binary, '-engine', engine, '-seed', str(w.seed), '-tier', w.tier,
+           '-shard', '%d/%d' % (shard, shards), '-out', o, '-progress', pg, *args]
+    with open(lg, 'wb') as lf:
+        rc = subprocess.call(cmd, cwd=w.dir, env=e, stdout=lf, stderr=subprocess.STDOUT)
+    if rc == 0 and os.path.exists(o):
+        return json.load(open(o)), None
+    tail = open(lg, 'rb').read()
+    head = tail[:3000].decode('utf-8', 'replace')
+    return None, dict(rc=rc, progress=read_progress(pg), log=head, timed_out=(rc in (124, 131, 137)))
+
+
+def check_total(prop, tier, seed, repo, keep):
+    """C06: crash-isolated children; a child that dies or hangs is attributed to the
+    input it was working on (progress file), the case is re-run alone, and the
+    shard continues without it."""
+    t0 = time.time()
+    with Work(prop, repo, tier, seed, keep) as w:
+        bins = w.prepare_harness(fresh=True)
+        shards = NCPU
+        tmo = 900 if tier == 'quick' else 7200
+        extra_viol = []
+        inconclusive = {}
+
+        def shard_job(i):
+            skip = []
+            viol = []
+            for attempt in range(6):
+                args = ['-arg', 'skip=' + ';'.join(skip)] if skip else []
+                rep, crash = run_isolated(w, bins['plain'], 'total', i, shards, args, tmo, 'a%d' % attempt)
+                if rep is not None:
+                    return rep, viol
+                pr = crash['progress']
+                if not pr or pr[0] == -1:
+                    raise Broken('total shard %d died without progress info (rc=%s)\n%s' % (i, crash['rc'], crash['log']))
+                # which type? the child lists types by shard order: ask it
+                q = subprocess.run([bins['plain'], '-engine', 'listtypes', '-shard', '%d/%d' % (i, shards)], cwd=w.dir, env=GOENV, stdout=subprocess.PIPE)
+                types = json.loads(q.stdout)['types']
+                tname = types[pr[0]] if 0 <= pr[0] < len(types) else '?'
+                case = pr[1]
+                # re-run the single case alone with a generous deadline
+                rep1, crash1 = run_isolated(w, bins['plain'], 'total', 0, 1, ['-types', '^' + re.escape(tname) + '$', '-arg', 'only=%d' % case], 300, 'solo')
+                if rep1 is None:
+                    kind = 'hang' if crash1['timed_out'] else 'fatal'
+                    viol.append(dict(prop='C06', key='total/%s' % kind, type=tname,
+                                     detail='isolated child %s on case %d of type %s (exit %s):\n%s' % ('timed out (300 s, single small input)' if kind == 'hang' else 'died', case, tname, crash1['rc'], crash1['log'][:1500]),
+                                     replay=dict(engine='total', type=tname, seed=seed, index=case)))
+                else:
+                    inconclusive['child-died-but-case-passes-alone'] = inconclusive.get('child-died-but-case-passes-alone', 0) + 1
+                skip.append('%s:%d' % (tname, case))
+            raise Broken('total shard %d: more than 6 crashing cases' % i)
+
+        with cf.ThreadPoolExecutor(max_workers=shards) as ex:
+            res = list(ex.map(shard_job, range(shards)))
+        reps = [r for r, _ in res]
+        for _, v in res:
+            extra_viol += v
+        # depth probes (shared children; the deepest probe alone in its own children)
+        dreps = []
+        for depths, tag in (('100;5000;11000;20000;100000', 'd1'), ('1000000', 'd2')):
+            def djob(i, depths=depths, tag=tag):
+                rep, crash = run_isolated(w, bins['plain'], 'depth', i, 4, ['-arg', 'depths=' + depths], 1200, tag)
+                if rep is not None:
+                    return rep, []
+                return None, [dict(prop='C06', key='total/depth/fatal', type='(shard %d)' % i,
+                                   detail='depth probe child (depths %s) died (exit %s): a fatal error such as stack overflow cannot be recovered\n%s' % (depths, crash['rc'], crash['log'][:1200]),
+                                   replay=dict(engine='depth', depths=depths, shard='%d/4' % i, seed=seed))]
+            with cf.ThreadPoolExecutor(max_workers=4) as ex:
+                for rep, v in ex.map(djob, range(4)):
+                    if rep is not None:
+                        dreps.append(rep)
+                    extra_viol += v
+        merged = merge_reports(reps + dreps, prop)
+        merged['violations'] += extra_viol
+        merged['n_violations'] += len(extra_viol)
+        for k, v in inconclusive.items():
+            merged['inconclusive'][k] = merged['inconclusive'].get(k, 0) + v
+        return finish(prop, tier, seed, t0, merged, RULES[prop], ASSUME_C06, 2000, 1000, extra=gen_summary(w))
+
+
+ASSUME_C06 = [
+    'termination is a watchdog judgement: a child that exceeds its generous deadline is re-run alone on the single input before a hang is reported',
+    'allocation bound: len(input)*(largest reachable struct size+512)+1MiB per call, measured with runtime/metrics /gc/heap/allocs:bytes',
+    'depth clause compares with dynamicpb (protobuf-go reference) at depths well away from the 10000 boundary',
+    'sampling: held on the executions observed only',
+]
+
+
 def gen_summary(w):
     if not w.events:
         return {}
@@ -463,6 +572,7 @@ def gen_summary(w):
 CHECKS = {
     'C01': check_engine, 'C02': check_engine, 'C04': check_engine, 'C05': check_engine,
     'C03': check_engine, 'C14': check_engine,
+    'C06': check_total,
 }
 
 
